@@ -33,10 +33,10 @@ SAMESIZE = {1: ['int8', 'uint8'], 2: ['int16', 'uint16', 'float16'], 4: ['int32'
             8: ['int64', 'uint64', 'float64', 'complex64'], 16: ['complex128']}
 
 
-def steps_for(rng, read_bias=False):
+def steps_for(rng, read_bias=False, hops=None):
     n = rng.randint(2, 7)
     out = []
-    hops = HOPS + (['h:read', 'h:set', 'h:read'] if read_bias else [])
+    hops = hops or HOPS + (['h:read', 'h:set', 'h:read'] if read_bias else [])
     for i in range(n):
         if i == 0 or (out[-1].startswith('h:') and rng.random() < 0.5):
             out.append(rng.choice(XOPS))
@@ -47,18 +47,18 @@ def steps_for(rng, read_bias=False):
     return out
 
 
-def array_cases(rng, n, seed, read_bias=False):
+def array_cases(rng, n, seed, read_bias=False, hops=None):
     for k in range(n):
         yield {'kind': 'stale', 'numtype': rng.choice(gens.T13), 'bo': rng.choice(gens.BO),
-               'shape': list(rng.choice(SHAPES)), 'steps': steps_for(rng, read_bias), 'vseed': f'{seed}:st{k}',
+               'shape': list(rng.choice(SHAPES)), 'steps': steps_for(rng, read_bias, hops), 'vseed': f'{seed}:st{k}',
                'chunklen': rng.choice([1, 2, 100])}
 
 
-def ragged_cases(rng, n, seed):
+def ragged_cases(rng, n, seed, hops=None):
     for k in range(n):
         yield {'kind': 'stale', 'numtype': rng.choice(gens.T13), 'bo': rng.choice(gens.BO),
                'atom': list(rng.choice([(), (), (2,), (1, 2)])), 'nsub': rng.choice([0, 1, 2, 3, 6, 7]),
-               'steps': [s for s in steps_for(rng) if s not in ('x:set', 'h:set', 'x:recreate_samesize', 'x:md_clear', 'h:md')]
+               'steps': [s for s in steps_for(rng, hops=hops) if s not in ('x:set', 'h:set', 'x:recreate_samesize', 'x:md_clear', 'h:md')]
                or ['x:app', 'h:app'],
                'vseed': f'{seed}:sr{k}'}
 
@@ -137,6 +137,25 @@ def run_array(env, res, case, want_readme=False, census=False):
                             res.fail(f'{tag}:read-differs', f'h[{idx!r}] through the stale handle = {describe(np.asarray(got))}, '
                                                             f'the array holds {describe(ref)}', step=step)
                             return
+                elif step == 'h:copy':
+                    res.count('mon.stale_copies')
+                    cpath = d / f'copy{nsteps}'
+                    c = h.copy(cpath, chunklen=rng.choice([None, 1, 3]))
+                    if not check_array_disk(res, D, cpath, c, model, want=('ifd', 'live', 'fresh'), mechprefix=f'{tag}:copy'):
+                        return
+                elif step == 'h:chunks':
+                    if n == 0:
+                        continue
+                    res.count('mon.stale_chunk_iterations')
+                    cl = rng.choice([1, 2, 3, n, n + 2])
+                    chunks = list(h.iterchunks(cl))
+                    got = np.concatenate(chunks).astype(chunks[0].dtype) if chunks else None
+                    if got is None or not bits_equal(np.ascontiguousarray(got), model) or \
+                            any(len(c_) != cl for c_ in chunks[:-1]):
+                        res.fail(f'{tag}:chunks-differ', f'iterchunks({cl}) through the stale handle yields chunks of lengths '
+                                                         f'{[len(c_) for c_ in chunks][:12]} = {describe(got) if got is not None else None}; '
+                                                         f'the array holds {describe(model)}', step=step)
+                        return
                 elif step == 'h:set':
                     if n == 0:
                         continue
@@ -235,6 +254,21 @@ def run_ragged(env, res, case):
                             res.fail(f'{tag}:read-differs', f'h[{i}] through the stale handle = {describe(got)}, '
                                                             f'the array holds {describe(model[i])}', step=step)
                             return
+                elif step == 'h:copy':
+                    res.count('mon.stale_copies')
+                    c = h.copy(d / f'copy{nsteps}')
+                    if not check_model(res, 'copy', c, model, dtype, atom) or \
+                            not check_model(res, 'copy-fresh', D.RaggedArray(d / f'copy{nsteps}'), model, dtype, atom):
+                        for f in res.fails:
+                            f['mech'] = f'{tag}:' + f['mech']
+                        return
+                elif step == 'h:iter':
+                    res.count('mon.stale_iterations')
+                    got = list(h.iter_arrays())
+                    if len(got) != n or any(not bits_equal(np.asarray(g), m) for g, m in zip(got, model)):
+                        res.fail(f'{tag}:iter_arrays-differs', f'iter_arrays() through the stale handle yields {len(got)} '
+                                                               f'subarrays, the array holds {n}', step=step)
+                        return
                 elif step == 'h:app':
                     s = sub()
                     h.append(s)
